@@ -138,7 +138,9 @@ fn fingerprint(ds: &BTreeMap<isize, (usize, SpRows)>, field_p: Option<u64>) -> B
 fn run_case(c: &Case, tier: Tier) -> Chk<Pass> {
     let dg = match build(&c.d) { Ok(d) => d, Err(e) => return discard(format!("diagram-build: {e}")) };
     if dg.orient(0).is_err() { return discard("diagram-invalid") }
-    if dg.ncross() > tier.pick(8, 10) { return discard("size-cap") }
+    // constants: d.d = 0 and gradings need no oracle, so larger diagrams are affordable; polynomial rings are kept small
+    let poly_ring = matches!(c.ring, PRing::ZH | PRing::ZT | PRing::ZHT | PRing::QH | PRing::F2H);
+    if dg.ncross() > if poly_ring { tier.pick(8, 10) } else { tier.pick(11, 12) } { return discard("size-cap") }
     let l = dg.to_link();
     let threads = [1usize, 2, 4, 16][c.threads as usize % 4];
     let poly = matches!(c.ring, PRing::ZH | PRing::ZT | PRing::ZHT | PRing::QH | PRing::F2H);
@@ -163,6 +165,15 @@ fn run_case(c: &Case, tier: Tier) -> Chk<Pass> {
         PRing::F2H => (lib!(extract(&KhComplex::<PH<FF2>>::new(&l, &PH::variable(), &PH::zero(), reduced))), true),
     };
     let pos_entry = check_complex(&ext, graded, &what)?;
+    // the reduced construction is only defined for t = 0; if the library nevertheless returns something for t != 0 it must be a complex
+    if c.reduced && !t_zero && !poly && !dg.x.is_empty() {
+        let r = with_threads(threads, || guard(|| match c.ring {
+            PRing::Z => extract(&KhComplex::<BigInt>::new(&l, &big(h), &big(t), true)),
+            PRing::Q => extract(&KhComplex::<Ratio<i64>>::new(&l, &Ratio::from(h as i64), &Ratio::from(t as i64), true)),
+            PRing::F2 => extract(&KhComplex::<FF2>::new(&l, &FF2::from(h as i64), &FF2::from(t as i64), true)),
+            _ => extract(&KhComplex::<FF<3>>::new(&l, &FF::<3>::new(h as i32), &FF::<3>::new(t as i32), true)) }));
+        if let Ok(e2) = r { check_complex(&e2, false, &format!("{what} [reduced with t != 0 was accepted]"))?; }
+    }
 
     // ---- specialisation commutes with homology
     let mut spec_nt = false;
@@ -198,8 +209,11 @@ impl Prop for C05 {
     }
     fn strategy(tier: Tier) -> BoxedStrategy<Case> {
         let ring = prop_oneof![2 => Just(PRing::Z), 1 => Just(PRing::Q), 1 => Just(PRing::F2), 1 => Just(PRing::F3), 3 => Just(PRing::ZH), 2 => Just(PRing::ZT), 4 => Just(PRing::ZHT), 2 => Just(PRing::QH), 2 => Just(PRing::F2H)];
-        (dspec_strategy(tier.pick(7, 9), 2), ring, crate::props::c01::ht_strategy(), any::<bool>(), (-4i8..=4, -4i8..=4), any::<u8>())
-            .prop_map(|(d, ring, (h, t), reduced, point, threads)| Case { d, ring, h, t, reduced, point, threads }).boxed()
+        ring.prop_flat_map(move |ring| {
+            let poly = matches!(ring, PRing::ZH | PRing::ZT | PRing::ZHT | PRing::QH | PRing::F2H);
+            let maxc = if poly { tier.pick(7, 9) } else { tier.pick(10, 11) };
+            (dspec_strategy(maxc, if poly { 2 } else { 1 }), Just(ring), crate::props::c01::ht_strategy(), any::<bool>(), (-4i8..=4, -4i8..=4), any::<u8>())
+        }).prop_map(|(d, ring, (h, t), reduced, point, threads)| Case { d, ring, h, t, reduced, point, threads }).boxed()
     }
     fn cases(tier: Tier) -> u32 { tier.pick(8_000, 150_000) }
     fn shards(_: Tier) -> usize { 8 }
